@@ -100,6 +100,7 @@ class Explorer:
         self.path = []
         self.cache = {}
         self.paths_run = 0
+        self.infeasible_paths = 0
         self.decisions_total = 0
         self.on_unknown = on_unknown
 
@@ -122,11 +123,6 @@ class Explorer:
                 return True
             if pc.key() == nk:
                 return False
-        if self.pos < len(self.prefix):
-            v = self.prefix[self.pos]
-            self.pos += 1
-            self.path.append(c if v else c.negate())
-            return v
         base = self.assumptions + self.path
         st_t = self._feasible(base + [c])
         st_f = self._feasible(base + [c.negate()])
@@ -137,6 +133,13 @@ class Explorer:
         t_ok = st_t != "unsat"
         f_ok = st_f != "unsat"
         if t_ok and f_ok:
+            # a real fork: only these consume / extend the decision prefix (an implied condition must not
+            # eat a prefix entry on re-execution, otherwise later forks are replayed with the wrong decision)
+            if self.pos < len(self.prefix):
+                v = self.prefix[self.pos]
+                self.pos += 1
+                self.path.append(c if v else c.negate())
+                return v
             self.decisions_total += 1
             self.prefix.append(True)
             self.pos += 1
@@ -179,8 +182,10 @@ class Explorer:
             try:
                 r = fn()
                 results.append((r, list(self.path)))
+                if self.pos != len(self.prefix):
+                    raise Undecided("re-execution did not consume its decision prefix (non-deterministic scenario?)")
             except Infeasible:
-                pass
+                self.infeasible_paths += 1
             finally:
                 _CURRENT[0] = prev
         return results
